@@ -15,8 +15,9 @@ import (
 
 // Bar represents a progress bar.
 type Bar struct {
-	index        int // used by heap
-	priority     int // used by heap
+	index        int  // used by heap
+	priority     int  // used by heap
+	dropped      bool // used by (*pState).flush and (*Progress).Add, set when bar leaves the heap for good
 	frameCh      chan *renderFrame
 	operateState chan func(*bState)
 	container    *Progress
